@@ -101,6 +101,12 @@ class ObjInterp(fd.Interp):
                 r = ctor(self, n, [v])
                 if r is not NotImplemented:
                     return r
+            cal = n.get('callee') or ''
+            rec = cal.rsplit('::', 1)[0].split('::')[-1] if cal else ''
+            if cal and rec and rec not in (n.get('csig') or '') and any(g.d.get('inits') is not None for g in self.F.by_name.get(cal, [])):
+                o = self.construct_from_facts(n, env)          # a converting constructor defined in the analysed sources
+                if o is not NotImplemented:
+                    return o
             return _copy(v)            # copy construction of a value object
         if k == 'CXXNewExpr':
             inner = [self.fn.nodes[c] for c in n['ch'] if self.fn.nodes.get(c) and self.fn.nodes[c]['k'] == 'CXXConstructExpr']
@@ -163,6 +169,39 @@ class ObjInterp(fd.Interp):
             return
         if n['k'] == 'IfStmt' and n.get('mac'):
             return
+        if n['k'] == 'CXXForRangeStmt':
+            rng_node = n.get('range')
+            rng = None
+            # the range expression: a list-valued member / local (the range variable's initialiser)
+            cand = []
+            rn = self.fn.nodes.get(rng_node) if rng_node else None
+            if rn is not None and rn['k'] == 'DeclStmt' and rn.get('decls') and rn['decls'][0].get('init'):
+                cand.append(rn['decls'][0]['init'])         # auto &&__range = <range expression>
+            elif rng_node:
+                cand.append(rng_node)
+            for c in cand:
+                try:
+                    v = self.ev(c, env) if c else None
+                except AnalysisBroken:
+                    v = None
+                if isinstance(v, list):
+                    rng = v
+                    break
+            if rng is None and n.get('rangeinit'):
+                v = self.ev(n['rangeinit'], env)
+                rng = v if isinstance(v, list) else None
+            if rng is None:
+                raise AnalysisBroken('obj: range of a range-based for loop not recognised in %s' % self.fn.name)
+            var = self.fn.nodes[n['var']]['decls'][0]
+            for item in list(rng):
+                env['%s#%d' % (var['name'], var['did'])] = item
+                try:
+                    self.ex(n['body'], env)
+                except fd.Break:
+                    break
+                except fd.Continue:
+                    continue
+            return
         return super().ex(nid, env)
 
     def construct_from_facts(self, cn, env, ref=False):
@@ -184,6 +223,14 @@ class ObjInterp(fd.Interp):
                 o[nm] = self.hooks.get('default', lambda ty: None)(nm)
             else:
                 o[nm] = sub.ev(x['init'], e2)
+        # members without an initialiser are default-constructed: containers start empty
+        recname = (cn.get('callee') or '').rsplit('::', 1)[0]
+        for r in self.F.records.get(recname, [])[:1]:
+            for fl in r.get('fields', []):
+                if fl['name'] not in o:
+                    ty = fl.get('ty') or ''
+                    o[fl['name']] = [] if any(t in ty for t in ('std::vector', 'std::list', 'std::deque', 'std::set')) else \
+                        self.hooks.get('default', lambda t: None)(fl['name'])
         if g.body:
             try:
                 sub.ex(g.body, e2)
